@@ -23,10 +23,10 @@ man = {
         "add_only": True,
     },
     "engines": [
-        {"name": "tlc", "path": "/opt/veriftools/tla/tla2tools.jar", "serves_properties": sorted(REGISTRY),
+        {"name": "tlc", "path": "/opt/veriftools/tla/tla2tools.jar", "serves_properties": sorted(p for p in REGISTRY if p.startswith("C")),
          "kind_free_text": "TLA+ specifications under /verif/spec checked with TLC 1.8: exhaustive model checking of the design, "
                            "batched trace validation of implementation runs, constant-level evaluation of reference definitions"},
-        {"name": "harness", "path": "/verif/harness", "serves_properties": sorted(REGISTRY),
+        {"name": "harness", "path": "/verif/harness", "serves_properties": sorted(p for p in REGISTRY if p.startswith("C")),
          "kind_free_text": "Python drivers running the real xknx classes under a deterministic virtual-time asyncio loop against "
                            "simulated gateways/buses; records traces for TLC and replays TLC behaviours"},
     ],
